@@ -7,6 +7,7 @@ import (
 	"math"
 	"sort"
 	"strings"
+	"sync"
 	"time"
 
 	"github.com/getlantern/bytemap"
@@ -297,9 +298,15 @@ func runPlan(plan core.FlatRowSource) (fields []string, rows []OutRow, err error
 	return
 }
 
-func (w *world) execLocal(sqlText string) (out Outcome) {
+func (w *world) execLocal(sqlText string) Outcome { return w.execLocalAs(sqlText, false) }
+
+// execLocalAs: isSub = plan the statement the way planSubQueries plans an IN-subquery
+// (Opts.IsSubQuery: the fields are replaced by _points and _having).
+func (w *world) execLocalAs(sqlText string, isSub bool) (out Outcome) {
 	p := hk.Recover(func() {
-		plan, err := planner.Plan(sqlText, w.localOpts(w.union, "union"))
+		lopts := w.localOpts(w.union, "union")
+		lopts.IsSubQuery = isSub
+		plan, err := planner.Plan(sqlText, lopts)
 		if err != nil {
 			out.Err = "plan: " + err.Error()
 			return
@@ -328,11 +335,22 @@ type clusterCall struct {
 // execCluster plans with Opts.QueryCluster set to a function that runs the
 // partition-side SQL with planner.Plan (local) on each partition's mock table
 // and streams the rows back, the way (*DB).queryCluster / queryForRemote do.
-func (w *world) execCluster(sqlText string) (out Outcome, calls []clusterCall, fieldMismatch bool) {
+func (w *world) execCluster(sqlText string) (Outcome, []clusterCall, bool) {
+	return w.execClusterAs(sqlText, false)
+}
+
+func (w *world) execClusterAs(sqlText string, isSub bool) (out Outcome, calls []clusterCall, fieldMismatch bool) {
+	var mu sync.Mutex // IN-subqueries are run in goroutines of their own
 	p := hk.Recover(func() {
-		opts := w.localOpts(w.union, "union")
+		// the leader of a cluster holds no rows: its table only answers questions about fields,
+		// resolution and partition keys, so anything the plan computes on the leader from "its
+		// own" table instead of asking the partitions comes out empty
+		opts := w.localOpts(nil, "leader (no rows)")
+		opts.IsSubQuery = isSub
 		opts.QueryCluster = func(ctx context.Context, sqlString string, isSubQuery bool, subQueryResults [][]interface{}, unflat bool, onFields core.OnFields, onRow core.OnRow, onFlatRow core.OnFlatRow) (interface{}, error) {
+			mu.Lock()
 			calls = append(calls, clusterCall{SQL: sqlString, Unflat: unflat, IsSubQuery: isSubQuery})
+			mu.Unlock()
 			var canonical []string
 			stopped := false
 			if onRow != nil {
@@ -375,7 +393,9 @@ func (w *world) execCluster(sqlText string) (out Outcome, calls []clusterCall, f
 						return onFields(fs)
 					}
 					if strings.Join(canonical, ",") != strings.Join(fs.Names(), ",") {
+						mu.Lock()
 						fieldMismatch = true
+						mu.Unlock()
 					}
 					return nil
 				}
